@@ -346,4 +346,127 @@ theorem flag_exact_creation (c : FlagClass) (hne : c.entries ≠ []) :
   · simp [he, hg, Create.isOk]
 
 
+/-! ## Flag: representation by the list of member names -/
+
+/-- the (decidable) hypothesis of the name-list round trip: different cases the provider
+    may use get different names -/
+abbrev InjectiveCaseNames (c : FlagClass) (cfg : NameCfg) (o : ListOpts) : Prop :=
+  InjectiveOn FlagCase.name cfg (c.getCases o)
+
+instance (c : FlagClass) (cfg : NameCfg) (o : ListOpts) : Decidable (InjectiveCaseNames c cfg o) :=
+  inferInstanceAs (Decidable (∀ a ∈ c.getCases o, ∀ b ∈ c.getCases o,
+    cfg.mapped a.name = cfg.mapped b.name → a = b))
+
+theorem flagListLoader_ok {c : FlagClass} {cfg : NameCfg} {o : ListOpts} {ld : PyVal → Outcome Nat}
+    (h : flagListLoader c cfg o = .ok ld) :
+    ∃ mapping, genForLoading FlagCase.name cfg (c.getCases o) = some mapping ∧
+      ld = fun data =>
+        match data with
+        | .list xs => listLoadItems o mapping xs
+        | .tuple xs => listLoadItems o mapping xs
+        | .mapping ks =>
+          if o.strictCoercion then .loadErr .excludedType
+          else listLoadItems o mapping ks
+        | .atom (.str s) =>
+          if o.allowSingleValue then listLoadItems o mapping [.str s]
+          else .loadErr .typeLoad
+        | _ => .loadErr .typeLoad := by
+  unfold flagListLoader at h
+  dsimp only at h
+  split at h
+  · cases h
+  · rename_i mapping hm
+    split at h
+    · cases h
+    · injection h with h
+      exact ⟨mapping, hm, h.symm⟩
+
+/-- the cases in the order the dumper visits them -/
+def dumpCases (c : FlagClass) (o : ListOpts) : List FlagCase :=
+  if o.allowCompound && c.getCases o != c.nonCompound then (c.getCases o).reverse else c.getCases o
+
+theorem mem_dumpCases {c : FlagClass} {o : ListOpts} {s : FlagCase} :
+    s ∈ dumpCases c o ↔ s ∈ c.getCases o := by
+  unfold dumpCases; split <;> simp
+
+theorem flagListDumper_ok {c : FlagClass} {cfg : NameCfg} {o : ListOpts} {dp : Nat → List String}
+    (h : flagListDumper c cfg o = .ok dp) :
+    ∃ mapping, genForDumping FlagCase.name cfg (dumpCases c o) = some mapping ∧
+      ∀ value, ∃ chosen : List FlagCase,
+        dp value = chosen.map (fun c => (dictGet (· == ·) mapping c).getD "") ∧
+        chosen.Nodup ∧ (∀ s ∈ chosen, s ∈ c.getCases o) ∧
+        orAll (chosen.map (·.bits)) = finalSum value (dumpCases c o) 0 := by
+  unfold flagListDumper at h
+  dsimp only at h
+  split at h
+  · cases h
+  · rename_i mapping hm
+    split at h
+    · cases h
+    · injection h with h
+      refine ⟨mapping, hm, ?_⟩
+      intro value
+      have hsum : orAll ((chosenGo value (dumpCases c o) 0).map (·.bits)) =
+          finalSum value (dumpCases c o) 0 := by simp [finalSum]
+      have hmem : ∀ s ∈ chosenGo value (dumpCases c o) 0, s ∈ c.getCases o :=
+        fun s hs => mem_dumpCases.1 (chosenGo_mem hs).1
+      subst h
+      simp only [listDumpLoop_eq, List.nil_append]
+      by_cases hrev : (o.allowCompound && c.getCases o != c.nonCompound) = true
+      · refine ⟨(chosenGo value (dumpCases c o) 0).reverse, ?_, ?_, ?_, ?_⟩
+        · simp [hrev, dumpCases, List.map_reverse]
+        · rw [List.Nodup, List.pairwise_reverse]
+          exact (chosenGo_nodup _ _ _).imp (fun h => Ne.symm h)
+        · intro s hs; exact hmem s (List.mem_reverse.1 hs)
+        · rw [List.map_reverse, orAll_reverse]; exact hsum
+      · refine ⟨chosenGo value (dumpCases c o) 0, ?_, chosenGo_nodup _ _ _, hmem, hsum⟩
+        simp [hrev, dumpCases]
+
+/-- **Round trip, flag by member-name list**: for every flag class (zero-valued, compound,
+    multi-bit members, aliases, any number of bits), every name configuration that is
+    injective on the cases in use, and **every combination of** `allow_single_value`,
+    `allow_duplicates`, `allow_compound`, `strict_coercion`: dumping any union of the cases the
+    provider uses and loading the list returns the same value.  With `allow_compound = True`
+    the cases are all members, so this is the property for every combination of flags. -/
+theorem flag_list_rt {c : FlagClass} {cfg : NameCfg} {o : ListOpts} {ld : PyVal → Outcome Nat}
+    {dp : Nat → List String} (hl : flagListLoader c cfg o = .ok ld)
+    (hd : flagListDumper c cfg o = .ok dp) (hinj : InjectiveCaseNames c cfg o)
+    {S : List FlagCase} (hS : ∀ s ∈ S, s ∈ c.getCases o) :
+    ld (.list ((dp (unionOf S)).map Atom.str)) = .ok (unionOf S) := by
+  obtain ⟨ml, hml, rfl⟩ := flagListLoader_ok hl
+  obtain ⟨md, hmd, hdp⟩ := flagListDumper_ok hd
+  obtain ⟨chosen, hdump, hnodup, hmem, hsum⟩ := hdp (unionOf S)
+  have hunion : orAll (chosen.map (·.bits)) = unionOf S := by
+    rw [hsum]
+    exact finalSum_eq_of_union (fun s hs => mem_dumpCases.2 (hS s hs))
+  -- the dumped names are the mapped names of the chosen cases
+  have hname : ∀ s ∈ chosen, cfg.mapped s.name = some ((dictGet (· == ·) md s).getD "") := by
+    intro s hs
+    obtain ⟨n, hn, hget⟩ := genForDumping_get FlagCase.name cfg hmd (mem_dumpCases.2 (hmem s hs))
+    rw [hget, hn]; rfl
+  have hitems : chosen.map (fun c => (cfg.mapped c.name).map Atom.str) =
+      ((dp (unionOf S)).map Atom.str).map some := by
+    rw [hdump, List.map_map, List.map_map]
+    apply List.map_congr_left
+    intro s hs
+    simp [hname s hs]
+  have hlook := (map_lookup_eq_names hml hinj _ chosen).2 ⟨hmem, hitems⟩
+  obtain ⟨hall, hfm⟩ := (map_lookup_eq_iff ml _ chosen).1 hlook
+  simp only
+  rw [listLoadItems_ok_iff]
+  refine ⟨?_, hall, by rw [hfm, hunion]⟩
+  by_cases hdups : o.allowDuplicates = true
+  · exact Or.inl hdups
+  · refine Or.inr ⟨by simp [List.all_map, Atom.hashable], ?_⟩
+    rw [hasDuplicates_strs, hdump]
+    -- different chosen cases have different names
+    have : (chosen.map fun c => (dictGet (· == ·) md c).getD "").Pairwise (· ≠ ·) := by
+      rw [List.pairwise_map]
+      apply List.Pairwise.imp_of_mem _ hnodup
+      intro a b ha hb hab heq
+      apply hab
+      exact hinj a (hmem a ha) b (hmem b hb) (by rw [hname a ha, hname b hb, heq])
+    exact this
+
+
 end Adaptix.Enum.C18
